@@ -189,6 +189,33 @@ def judge_text(ctx, stream, datas, counter):
                 bad = "token %d is %s, the complete document has %s" % (i, t, T[i]); break
         if bad:
             ctx.fail("text-lex-trunc-fabricated", "%s on %r cut at %d: %s (%s)" % (kind, d, k, bad, o[:160]), [cases[j]], [o], " ".join(T)[:200])
+    # >>> w_tdef (wave 5): Python transcription of TruncTextTokProofs.tok_cut (Props/C19_texttok.v C19_text_tok_slice_reader_trunc /
+    # C19_text_tok_stream_trunc), for EVERY document, accepted or not: the outputs of the prefix run are (i) literally the first
+    # tokens of the complete run followed by END or the Eof error, or (ii) those plus ONE shortened unquoted scalar (non-empty,
+    # proper prefix) followed by END.  Stricter than the oracle above: a cut two-byte operator must be an error, a shortened
+    # scalar must be followed by a clean end, any error must be Eof, and documents that do not end cleanly are judged too.
+    fullany = {}
+    for j, (d, k) in enumerate(meta):
+        if k == len(d) and cases[j].startswith("tr.slice"):
+            s_ = _split(impl[base + j])
+            if s_:
+                fullany[d] = s_
+    for j, (d, k) in enumerate(meta):
+        o = impl[base + j]
+        s_ = _split(o)
+        F = fullany.get(d)
+        if o in CRASH or s_ is None or F is None:
+            continue
+        P, end = s_
+        T = F[0] + [F[1]]
+        n = len(P)
+        case_i = end in ("END", "ERR:102") and n < len(T) and P == T[:n]
+        case_ii = (end == "END" and n >= 1 and n <= len(T) and P[:n - 1] == T[:n - 1] and P[n - 1].startswith("U:") and T[n - 1].startswith("U:")
+                   and len(P[n - 1]) > 2 and len(T[n - 1]) > len(P[n - 1]) and T[n - 1].startswith(P[n - 1]))
+        ctx.count("tok_cut_case_i" if case_i else ("tok_cut_case_ii" if case_ii else "tok_cut_neither"))
+        if not (case_i or case_ii):
+            ctx.fail("text-lex-trunc-strict", "%s on %r cut at %d: %s is not a cut of the complete run %s (tok_cut: literal prefix + END/Eof, or literal prefix + one shortened unquoted scalar + END)" % (cases[j].split("\t")[0], d, k, o[:160], " ".join(T)[:160]), [cases[j]], [o], " ".join(T)[:200])
+    # <<< w_tdef
     ctx.count(counter, len(cases))
 
 
